@@ -12,7 +12,7 @@
 use std::cell::RefCell;
 
 pub const PAGE: usize = 4096;
-pub const RW_PAGES: usize = 4;
+pub const RW_PAGES: usize = 24;
 pub const RW: usize = PAGE * RW_PAGES;
 
 #[derive(Clone, Copy, Debug, PartialEq, Eq, serde::Serialize, serde::Deserialize)]
